@@ -4,6 +4,7 @@ import math
 
 import numpy as np
 from hypothesis import strategies as st
+from vf.core import robust_gen
 
 from vf.core import Decline, Prop, Violation, case_hash, innermost_funsor_frame
 from vf.gen import G, REAL_POOL, WVALS, HypSource, Opts, SeedSource, gauss_leaf
@@ -108,7 +109,7 @@ def cases():
     def _structured(draw):
         return gen_case(HypSource(draw))
 
-    seeded = st.integers(0, 2**40).map(lambda s: gen_case(SeedSource(s)))
+    seeded = st.integers(0, 2**40).map(robust_gen(lambda s: gen_case(SeedSource(s))))
     return st.one_of(_structured(), seeded, seeded, seeded)
 
 
